@@ -117,6 +117,10 @@ fn base_images() -> Vec<(String, Built)> {
     add("b64-split-load", Spec { split_load_delta: 0x3000, ..d.clone() });
     add("b64-split-load-no-sections", Spec { split_load_delta: 0x3000, sections: false, ..d.clone() });
     add("b32-split-load", Spec { is64: false, split_load_delta: 0x2000, ..d.clone() });
+    // a second PT_LOAD whose FILE OFFSET is larger than its virtual address (libraries rewritten more than once by patchelf / auditwheel)
+    add("b64-split-load-offset-above-vaddr", Spec { split_load_delta: 0x1000, split_load_neg: true, dynstr_pad: 0x2000, ..d.clone() });
+    add("b64-split-load-offset-above-vaddr-no-sections", Spec { split_load_delta: 0x2000, split_load_neg: true, dynstr_pad: 0x2000, sections: false, ..d.clone() });
+    add("b32be-split-load-offset-above-vaddr", Spec { is64: false, be: true, split_load_delta: 0x1000, split_load_neg: true, dynstr_pad: 0x3000, ..d.clone() });
     v
 }
 
